@@ -427,6 +427,14 @@ pixman_composite_glyphs_no_mask (pixman_op_t            op,
 
     _pixman_image_validate (src);
     _pixman_image_validate (dest);
+
+    /* A source without pixels has nothing that a repeat mode could repeat */
+    if (src->type == BITS					&&
+	(src->bits.width <= 0 || src->bits.height <= 0)	&&
+	src->common.repeat != PIXMAN_REPEAT_NONE)
+    {
+	return;
+    }
     
     dest_format = dest->common.extended_format_code;
     dest_flags = dest->common.flags;
